@@ -656,7 +656,11 @@ func buildIntrinsics() map[string]intrinsic {
 	reg("(*sync.Mutex).Lock", func(ex *Exec, fr *frame, fn *ssa.Function, args []Value) Value {
 		ms := ex.mutexOf(args[0])
 		if ms.w {
-			ex.end(OutDeadlock, "Lock of a mutex already held (single-threaded execution) in "+callerName(fr))
+			if ex.schedOn {
+				ex.yield(func() bool { return !ms.w })
+			} else {
+				ex.end(OutDeadlock, "Lock of a mutex already held (single-threaded execution) in "+callerName(fr))
+			}
 		}
 		ms.w = true
 		return nil
@@ -680,7 +684,11 @@ func buildIntrinsics() map[string]intrinsic {
 	reg("(*sync.RWMutex).Lock", func(ex *Exec, fr *frame, fn *ssa.Function, args []Value) Value {
 		ms := ex.mutexOf(args[0])
 		if ms.w || ms.readers > 0 {
-			ex.end(OutDeadlock, "RWMutex.Lock while held (single-threaded execution) in "+callerName(fr))
+			if ex.schedOn {
+				ex.yield(func() bool { return !ms.w && ms.readers == 0 })
+			} else {
+				ex.end(OutDeadlock, "RWMutex.Lock while held (single-threaded execution) in "+callerName(fr))
+			}
 		}
 		ms.w = true
 		return nil
@@ -696,7 +704,11 @@ func buildIntrinsics() map[string]intrinsic {
 	reg("(*sync.RWMutex).RLock", func(ex *Exec, fr *frame, fn *ssa.Function, args []Value) Value {
 		ms := ex.mutexOf(args[0])
 		if ms.w {
-			ex.end(OutDeadlock, "RWMutex.RLock while write-held (single-threaded execution) in "+callerName(fr))
+			if ex.schedOn {
+				ex.yield(func() bool { return !ms.w })
+			} else {
+				ex.end(OutDeadlock, "RWMutex.RLock while write-held (single-threaded execution) in "+callerName(fr))
+			}
 		}
 		ms.readers++
 		return nil
@@ -1026,6 +1038,17 @@ func buildIntrinsics() map[string]intrinsic {
 	reg(vfn("MapOrdersIn"), func(ex *Exec, fr *frame, fn *ssa.Function, args []Value) Value {
 		ex.mapOrderFn = ex.concStrArg(args[0], "MapOrdersIn")
 		ex.mapOrders = ex.mapOrderFn != ""
+		return nil
+	})
+	reg(vfn("Sched"), func(ex *Exec, fr *frame, fn *ssa.Function, args []Value) Value {
+		// Sched("a,b"): from now on `go` statements of functions whose name contains one of the substrings run
+		// under the cooperative scheduler (every schedule at channel/mutex granularity explored)
+		l := ex.concStrArg(args[0], "Sched")
+		ex.schedOn = l != ""
+		ex.schedAllow = strings.Split(l, ",")
+		if ex.schedOn && len(ex.gors) == 0 {
+			ex.schedInit()
+		}
 		return nil
 	})
 	reg(vfn("RandBudget"), func(ex *Exec, fr *frame, fn *ssa.Function, args []Value) Value {
